@@ -91,6 +91,8 @@ def run(ctx):
         "src/thrift/parquet_types.c", "src/writer/page_writer.c", "src/writer/column_writer.c",
         "src/writer/file_writer.c", "src/writer/row_group_writer.c", "src/reader/file_reader.c"))
     ctx.floor("C16 min/max stores and argument pairs", npol, 80)
+    ctx.clause("C16.7 the column-index builder records a page as a null page exactly when its caller says so, and the bounds it was given")
+    _index_builder_records(ctx)
     f = P.fn("carquet_reader_row_group_matches", RS)
     # the two comparison results, found by what they are computed from: cmp(value, stats.<bound>)
     roles = {}
@@ -626,3 +628,46 @@ def _interval(ctx, fn, file_, outname, blocks):
                        "%s: the no-match/out-of-range answer from cmp(%s, %s) is given only when cmp %s 0"
                        % (fn.name, a_name, b_name, "<" if sign < 0 else ">"), okall, "; ".join(detail))
     ctx.floor("%s interval blocks" % fn.name, found, 2)
+
+
+def _index_builder_records(ctx):
+    """carquet_column_index_add_page, executed abstractly over {null page or not} x {min given / absent /
+    empty} x {max given / absent / empty}: what ends up in the arrays page_might_match reads."""
+    from ..rules import sem
+    P = ctx.P
+    PI = "src/metadata/page_index.c"
+    f = P.fn("carquet_column_index_add_page", PI)
+    key = "index-builder-records|%s:%s" % (PI, f.name)
+    try:
+        bo = sem.field_offsets(P, "carquet_column_index_builder")
+        bad = None
+        n = 0
+        for isnull in (0, 1):
+            for minp, minl in ((sem.Ptr("minv", 0, 1), 4), (0, 0), (sem.Ptr("minv", 0, 1), 0)):
+                for maxp, maxl in ((sem.Ptr("maxv", 0, 1), 6), (0, 0), (sem.Ptr("maxv", 0, 1), 0)):
+                    n += 1
+                    heap0 = {("b", bo["capacity"]): 8, ("b", bo["num_pages"]): 2,
+                             ("b", bo["null_counts"]): sem.Ptr("nc", 0, 8), ("b", bo["min_values"]): sem.Ptr("mins", 0, 8),
+                             ("b", bo["min_value_lens"]): sem.Ptr("minl", 0, 4), ("b", bo["max_values"]): sem.Ptr("maxs", 0, 8),
+                             ("b", bo["max_value_lens"]): sem.Ptr("maxl", 0, 4), ("b", bo["null_pages"]): sem.Ptr("np", 0, 1)}
+                    km = [0]
+
+                    def malloc(ev, a, it):
+                        km[0] += 1
+                        return sem.Ptr("copy%d" % km[0], 0, 1)
+                    ret, ev, heap = sem.run(P, f, [sem.Ptr("b", 0, 1), 17, minp, minl, maxp, maxl, isnull], heap0=heap0, single=True,
+                                            max_forks=64, hooks={"malloc": malloc, "realloc": lambda ev, a, it: a[0],
+                                                                 "memcpy": lambda ev, a, it: ev.append(("copy", getattr(a[1], "base", a[1]), a[2])) or a[0],
+                                                                 "free": lambda ev, a, it: None})
+                    sc = "is_null_page=%d, min %s/%d, max %s/%d" % (isnull, "given" if minp != 0 else "NULL", minl, "given" if maxp != 0 else "NULL", maxl)
+                    got = {"null_page": heap.get(("np", 2)), "null_count": heap.get(("nc", 16)), "pages": heap.get(("b", bo["num_pages"]))}
+                    want = {"null_page": isnull, "null_count": 17, "pages": 3}
+                    copies = sorted(e[1:] for e in ev if e[0] == "copy")
+                    wantc = sorted(([("minv", 4)] if minp != 0 and minl > 0 else []) + ([("maxv", 6)] if maxp != 0 and maxl > 0 else []))
+                    if (ret != 0 or got != want or copies != wantc) and bad is None:
+                        bad = "%s: returns %s, records %s (expected %s), copies %s (expected %s)" % (sc, ret, got, want, copies, wantc)
+        ctx.ob("R5.agree", key, P.where(f.body),
+               "add_page stores the caller's is_null_page flag and null count for the page and copies exactly the non-empty bounds it was given "
+               "(%d argument shapes, abstract execution)" % n, bad is None, bad or "")
+    except (sem.Inconclusive, KeyError) as ex:
+        ctx.inconclusive("R5.agree", key, P.where(f.body), "abstract execution of add_page", "%s: %s" % (type(ex).__name__, ex))
